@@ -735,15 +735,30 @@ class C20(PropCheck):
         R.cleanup_at_exit(config)
         local_name, local_uri = system_font()
         key_counter = itertools.count(1)
-        for _ in range(run.n(300, 5000)):
+        contents = R.bank()
+        # fixed family, run first: two rules for one font-family (same descriptors but `src`): the first one is served
+        # unusable data (delivered, so written to the face's file before fontconfig refuses it), the second a valid font
+        fixed = []
+        for bad in ('html', 'empty', 'otf_cut', 'garbage', 'woff_bad', 'png'):
+            first, second = next(key_counter), next(key_counter)
+            urls = [f'http://fonts.test/k{first}-0.otf', f'http://fonts.test/k{second}-0.otf']
+            fixed.append(({urls[0]: Spec('resp', content=contents[bad], string=True, mime='font/otf'),
+                           urls[1]: Spec('resp', content=contents['otf'], string=True, mime='font/otf')},
+                          [(first, [('external', urls[0])]), (second, [('external', urls[1])])],
+                          {first: f'c20fam{first}', second: f'c20fam{first}'}))
+        for index in range(len(fixed) + run.n(300, 5000)):
             rng = run.rng
-            table, faces = {}, []
-            for _ in range(rng.randrange(1, 4)):
+            table, faces, families = {}, [], {}
+            if index < len(fixed):
+                table, faces, families = fixed[index]
+            for _ in range(rng.randrange(1, 4) if index >= len(fixed) else 0):
                 reuse = faces and rng.random() < 0.2
                 if reuse:
                     faces.append(rng.choice(faces))
                     continue
                 key = next(key_counter)
+                # several rules of one family (other descriptors equal): each has its own file, its own fetches
+                families[key] = families[faces[0][0]] if (faces and rng.random() < 0.4) else f'c20fam{key}'
                 srcs = []
                 for j in range(rng.randrange(1, 5)):
                     r = rng.random()
@@ -762,17 +777,19 @@ class C20(PropCheck):
                         srcs.append(('local', 'No Such Font C20'))
                 faces.append((key, srcs))
             recorder = R.Recorder(table)
-            outs, failing = self.run_font_case(config, recorder, faces)
+            outs, failing = self.run_font_case(config, recorder, faces, families)
             faces_wire = [[key, [font_src_sx(s, local_name, local_uri) for s in srcs]] for key, srcs in faces]
             line = sx.line('fonts', recorder.sx(), faces_wire)
             damaged = any(spec.kind == 'resp' and '@' in spec.content.name for spec in table.values())
             sec.add(line, ' | '.join(outs),
                     meta={'table': {u: spec.json() for u, spec in table.items()},
-                          'faces': [[key, [list(src) for src in srcs]] for key, srcs in faces]},
-                    nontrivial=failing, tags=['fails' if failing else 'loads'] + (['damaged-font-data'] if damaged else []))
+                          'faces': [[key, [list(src) for src in srcs]] for key, srcs in faces],
+                          'families': {str(k): v for k, v in families.items()}},
+                    nontrivial=failing, tags=['fails' if failing else 'loads'] + (['damaged-font-data'] if damaged else []) +
+                    (['rules-sharing-a-family'] if len(set(families.values())) < len(families) else []))
 
     @staticmethod
-    def run_font_case(config, recorder, faces):
+    def run_font_case(config, recorder, faces, families=None):
         """The real add_font_face on each face in turn -> (one observable line per face, some entry failed)."""
         from weasyprint.text.ffi import ffi, fontconfig
 
@@ -781,7 +798,8 @@ class C20(PropCheck):
             return 0 if fonts == ffi.NULL else fonts.nfont
         outs, failing = [], False
         for key, srcs in faces:
-            descriptors = {'font_family': f'c20fam{key}', 'src': [tuple(src) for src in srcs]}
+            family = (families or {}).get(key) or (families or {}).get(str(key)) or f'c20fam{key}'
+            descriptors = {'font_family': family, 'src': [tuple(src) for src in srcs]}
             before = app_fonts()
             written = []
             with R.captured_log() as log, recording_writes(written, recorder):
@@ -1011,6 +1029,8 @@ class C20(PropCheck):
             return 'the result differs from the result of the document without the failed references'
         if 'absent=PAINT-DIFF' in impl:
             return c20_doc.PAINT_DIFF
+        if 'absent=CATALOG-DIFF' in impl:
+            return c20_doc.CATALOG_DIFF + ': ' + impl.split('absent=CATALOG-DIFF:')[1].split(' ')[0]
         if meta.get('svg_only_escapes') and ' render=ok' in impl and ' write=err:' in impl and 'FileNotFoundError' not in impl:
             return ('write_pdf raised ' + impl.split(' write=err:')[1].split(' ')[0] + ' because a resource referenced from '
                     'inside an SVG image could not be read: drawing an SVG must absorb the failures of its references')
@@ -1061,7 +1081,7 @@ class C20(PropCheck):
             config = FontConfiguration()
             R.cleanup_at_exit(config)
             recorder = R.Recorder({u: Spec.from_json(j) for u, j in meta['table'].items()})
-            outs, _ = self.run_font_case(config, recorder, meta['faces'])
+            outs, _ = self.run_font_case(config, recorder, meta['faces'], meta.get('families'))
             return self.judge({**inp, 'impl': ' | '.join(outs)})
         return self.judge(inp)
 
